@@ -75,6 +75,19 @@ func flipTok(op token.Token) token.Token {
 }
 
 func (c *oblCtx) lenArg(e ast.Expr) (string, bool) {
+	// a local bound once to len(x) / x.NumFields() stands for it (`switch n := len(x); { case n >= 2: … }`)
+	if id, ok := ast.Unparen(e).(*ast.Ident); ok && c.fn != nil {
+		if obj, ok := objOf(c.info(), id).(*types.Var); ok && !obj.IsField() {
+			if defs := c.defsOf(obj); len(defs) == 1 && defs[0] != nil {
+				if _, isCall := ast.Unparen(defs[0]).(*ast.CallExpr); isCall {
+					if x, ok := c.lenArg(defs[0]); ok && !c.reassigned(x) {
+						return x, true
+					}
+				}
+			}
+		}
+		return "", false
+	}
 	call, ok := ast.Unparen(e).(*ast.CallExpr)
 	if !ok {
 		return "", false
@@ -315,12 +328,39 @@ func (c *oblCtx) sameLen(a ast.Expr, b string) bool {
 	if len(defs) != 1 || defs[0] == nil {
 		return false
 	}
+	base, extra, ok := c.madeLen(a)
+	return ok && base == b && extra >= 0
+}
+
+// madeLen: a is a local defined once by make([]T, len(R)) or make([]T, len(R)+k) with a constant k; returns the
+// rendering of R and k.
+func (c *oblCtx) madeLen(a ast.Expr) (string, int, bool) {
+	id, ok := ast.Unparen(a).(*ast.Ident)
+	if !ok {
+		return "", 0, false
+	}
+	defs := c.defsOf(objOf(c.info(), id))
+	if len(defs) != 1 || defs[0] == nil {
+		return "", 0, false
+	}
 	call, ok := defs[0].(*ast.CallExpr)
 	if !ok || !isBuiltinCall(c.info(), call, "make") || len(call.Args) != 2 {
-		return false
+		return "", 0, false
 	}
-	la, ok := c.lenArg(call.Args[1])
-	return ok && la == b
+	size := ast.Unparen(call.Args[1])
+	if la, ok := c.lenArg(size); ok {
+		return la, 0, true
+	}
+	if be, ok := size.(*ast.BinaryExpr); ok && be.Op == token.ADD {
+		for _, pr := range [][2]ast.Expr{{be.X, be.Y}, {be.Y, be.X}} {
+			if la, ok := c.lenArg(pr[0]); ok {
+				if k, isK := c.constInt(pr[1]); isK && k >= 0 {
+					return la, k, true
+				}
+			}
+		}
+	}
+	return "", 0, false
 }
 
 // regexpOf resolves a package-level `var re = regexp.MustCompile(const)` to its pattern.
@@ -792,6 +832,13 @@ func (c *oblCtx) obligIndex(n *ast.IndexExpr) {
 			c.add("OBL-INDEX", n, construct, VOK, how, true)
 			return
 		}
+		// xs := make([]T, len(R)+k), k >= 1: xs[len(R)] exists
+		if la, ok := c.lenArg(n.Index); ok {
+			if base, extra, ok := c.madeLen(n.X); ok && base == la && extra >= 1 {
+				c.add("OBL-INDEX", n, construct, VOK, fmt.Sprintf("I6: %s is made with len(%s)+%d elements", x, la, extra), true)
+				return
+			}
+		}
 		// types.Typ[kind]
 		if sel, ok := n.X.(*ast.SelectorExpr); ok {
 			if v, ok := c.info().Uses[sel.Sel].(*types.Var); ok && v.Pkg() != nil && v.Pkg().Path() == "go/types" && v.Name() == "Typ" {
@@ -950,4 +997,23 @@ func (c *oblCtx) checkAccessor(call *ast.CallExpr, fn *types.Func) {
 		return
 	}
 	c.add("OBL-ACCESSOR", call, construct, VViolation, "positional go/types accessor whose index is not bounded by the receiver's count", true)
+}
+
+// reassigned: the variable named x (a plain identifier) is assigned more than once in the function.
+func (c *oblCtx) reassigned(x string) bool {
+	if c.fn == nil || strings.ContainsAny(x, ".[(#") {
+		return false
+	}
+	n := 0
+	ast.Inspect(c.fn, func(m ast.Node) bool {
+		if as, ok := m.(*ast.AssignStmt); ok {
+			for _, l := range as.Lhs {
+				if es(l) == x {
+					n++
+				}
+			}
+		}
+		return true
+	})
+	return n > 1
 }
